@@ -61,7 +61,12 @@ Definition del (s : store) (m : mh) : store := filter (fun e => negb (mh_eqb m (
 
 (** configuration *)
 Inductive exkind := XNone | XPlain | XSess.      (* nil exchange / exchange.Interface / exchange.SessionExchange *)
-Inductive path := PPlain | PSession | PCtxSession. (* bs.GetX / NewSession(ctx,bs).GetX / bs.GetX(ContextWithSession(ctx,bs)) *)
+(** how the getter is reached: bs.GetX / NewSession(ctx,bs).GetX / bs.GetX(ContextWithSession(ctx,bs)), and the
+    same two with a context that carries an embedded session of ANOTHER block service:
+    bs.GetX(ContextWithSession(ctx,other)) / NewSession(ContextWithSession(ctx,other),bs).GetX.  Sessions are
+    embedded under the owning service as key, so a foreign session is invisible to [bs]: the foreign paths
+    behave as the plain / fresh-session path on [bs]'s own blockstore and exchange. *)
+Inductive path := PPlain | PSession | PCtxSession | PForeignCtx | PForeignSession.
 Record flags := { trust_cid : bool; trust_hash : bool }.
 Record faults := { f_get : list mh; f_has : list mh; f_put : list mh; f_notify : list mh }.
 Definition no_faults : faults := {| f_get := []; f_has := []; f_put := []; f_notify := [] |}.
@@ -82,7 +87,9 @@ Inductive ev :=
 | EvNewSession
 | EvFetch1 (viasess : bool) (c : cid)
 | EvFetchN (viasess : bool) (cs : list cid)
-| EvNotify (bs : list blk).
+| EvNotify (bs : list blk)
+| EvForeign (e : ev).   (* the call [e] was made on the blockstore / exchange of ANOTHER block service
+                           (observable in the harness; the model never produces it) *)
 
 Inductive out :=
 | RAdd (e : err)
@@ -104,7 +111,7 @@ Definition fetcher (p : path) : list ev * option bool :=
   match ex with
   | XNone => ([], None)
   | XPlain => ([], Some false)
-  | XSess => match p with PPlain => ([], Some false) | _ => ([EvNewSession], Some true) end
+  | XSess => match p with PPlain | PForeignCtx => ([], Some false) | _ => ([EvNewSession], Some true) end
   end.
 
 (** does the service accept a block handed over by the exchange for the request [wanted] *)
@@ -288,8 +295,9 @@ Definition verr_eqb (a b : verr) : bool :=
   | EOk, EOk | EInsecure, EInsecure | ETooSmall, ETooSmall | ETooLarge, ETooLarge => true
   | _, _ => false
   end.
-Definition ev_eqb (a b : ev) : bool :=
+Fixpoint ev_eqb (a b : ev) : bool :=
   match a, b with
+  | EvForeign x, EvForeign y => ev_eqb x y
   | EvHas x, EvHas y | EvGet x, EvGet y | EvDel x, EvDel y => cid_eqb x y
   | EvPut x, EvPut y => blk_eqb x y
   | EvPutMany x, EvPutMany y | EvNotify x, EvNotify y => list_eqb blk_eqb x y
